@@ -34,7 +34,10 @@ def trace_prefixes():
 def gen_agents(rng, n_agents, comps=(), capacity=(50, 200), hosting=True, routes=True):
     names = [f"a{i}" for i in range(n_agents)]
     agents = []
-    default_route = rng.choice([1, 1, 2])      # one default for all: routes stay symmetric
+    # one default for all: routes stay symmetric.  A third of the agent sets use decimal
+    # route costs (sums like 0.1 + 0.2 are not exact in binary floating point)
+    decimal = rng.random() < 0.33
+    default_route = rng.choice([0.1, 0.3, 0.7]) if decimal else rng.choice([1, 1, 2])
     for i, a in enumerate(names):
         d = {"name": a, "capacity": rng.randint(*capacity),
              "default_route": default_route,
@@ -48,7 +51,7 @@ def gen_agents(rng, n_agents, comps=(), capacity=(50, 200), hosting=True, routes
         for i, a in enumerate(names):
             for b in names[i + 1:]:
                 if rng.random() < 0.4:
-                    cost = rng.randint(1, 9)
+                    cost = rng.choice([0.1, 0.2, 0.3, 0.6, 0.7, 1.1]) if decimal else rng.randint(1, 9)
                     agents[i]["routes"][b] = cost
                     agents[names.index(b)]["routes"][a] = cost
     return agents
